@@ -221,15 +221,22 @@ pub fn attribute(diags: &[Diag], prefix: &str) -> (BTreeMap<usize, Vec<Diag>>, V
 pub fn diag_key(d: &Diag) -> String {
     let mut out = String::new();
     let mut in_tick = false;
+    let mut tick = String::new();
     for c in d.message.chars() {
         if c == '`' {
             in_tick = !in_tick;
             if in_tick {
+                tick.clear();
+            } else if !tick.is_empty() && !tick.chars().any(|x| x.is_alphanumeric() || x == '_') {
+                // pure punctuation (`::`, `-`, `=`) is part of what went wrong, names are not
+                out.push_str(&format!("`{tick}`"));
+            } else {
                 out.push_str("`_`");
             }
             continue;
         }
         if in_tick {
+            tick.push(c);
             continue;
         }
         if c.is_ascii_digit() {
@@ -242,7 +249,7 @@ pub fn diag_key(d: &Diag) -> String {
     }
     // "for struct `_`" / "for enum `_`" / "for type `_`" name the same thing
     let mut out = out;
-    for w in ["struct ", "enum ", "type ", "union ", "trait ", "value ", "module ", "crate "] {
+    for w in ["struct ", "enum ", "type ", "union ", "trait ", "value ", "module ", "crate ", "array ", "tuple ", "reference "] {
         out = out.replace(&format!("{w}`_`"), "`_`");
     }
     let out: String = out.chars().take(90).collect();
